@@ -119,6 +119,34 @@ func RouteSpecs(thorough bool) []*spec.Spec {
 		}}
 		out = append(out, withCell(spec.One("route_root", f), "route/unit=root_mounted_methods", "extended", "valid", "route"))
 	}
+	// F: method paths with a trailing slash under a base path; G: DELETE with query parameters only
+	{
+		f := &spec.File{Messages: out1(
+			spec.M("TList", spec.F("q", "string").Q("q")),
+			spec.M("TCreate", spec.F("name", "string")),
+			spec.M("TChild", spec.F("parent_id", "string"), spec.F("q", "string").Q("q")),
+		), Services: []*spec.Service{
+			spec.Svc("TrailService", "/api/v1",
+				spec.RPC("ListItems", "TList", "Out", "GET", "/items/"),
+				spec.RPC("CreateItem", "TCreate", "Out", "POST", "/items/"),
+				spec.RPC("ListChildren", "TChild", "Out", "GET", "/items/{parent_id}/children/"),
+				spec.RPC("PlainItems", "TList", "Out", "GET", "/plain"),
+			),
+			spec.Svc("TrailTagService", "/api/v2/", spec.RPC("ListTags", "TList", "Out", "GET", "tags/")),
+			spec.SvcNoBase("TrailNoBaseService", spec.RPC("ListBare", "TList", "Out", "GET", "/bare/")),
+		}}
+		out = append(out, withCell(spec.One("route_trailing", f), "route/unit=trailing_slash_paths", "extended", "valid", "route"))
+	}
+	{
+		f := &spec.File{Messages: out1(
+			spec.M("SessReq", spec.F("user", "string")),
+			spec.M("SessDel", spec.F("all_devices", "bool").Q("all_devices"), spec.F("reason", "string").Q("reason")),
+		), Services: []*spec.Service{spec.Svc("SessionService", "/api/v1",
+			spec.RPC("CreateSession", "SessReq", "Out", "POST", "/sessions"),
+			spec.RPC("DeleteSessions", "SessDel", "Out", "DELETE", "/sessions"),
+		)}}
+		out = append(out, withCell(spec.One("route_delete_query", f), "route/unit=delete_with_query_only", "extended", "valid", "route"))
+	}
 	return out
 }
 
